@@ -37,6 +37,16 @@ type ReadOp struct {
 	ToEOF bool
 	// NoByteSrc: the operation cannot see whether the source is an io.ByteReader.
 	NoByteSrc bool
+	// Class is the entry point named in failure classes when several operations differ only in a
+	// size parameter (default: Name).
+	Class string
+}
+
+func (o *ReadOp) class() string {
+	if o.Class != "" {
+		return o.Class
+	}
+	return o.Name
 }
 
 func hx(s string) []byte {
@@ -194,7 +204,7 @@ func wireReadOps() []*ReadOp {
 	for _, bits := range []int64{8, 20, 64, 128} {
 		bits := bits
 		nbytes := int((bits + 7) / 8)
-		add(&ReadOp{Name: fmt.Sprintf("FixedBitSet[%d].ReadFrom", bits), Inputs: []Input{in("pattern", pattern(nbytes)), in("ff", bytes.Repeat([]byte{0xff}, nbytes))},
+		add(&ReadOp{Name: fmt.Sprintf("FixedBitSet[%d].ReadFrom", bits), Class: "FixedBitSet.ReadFrom", Inputs: []Input{in("pattern", pattern(nbytes)), in("ff", bytes.Repeat([]byte{0xff}, nbytes))},
 			Run: func(r io.Reader) (any, int64, error) {
 				f := pk.NewFixedBitSet(bits)
 				n, err := f.ReadFrom(r)
@@ -264,14 +274,16 @@ func wireReadOps() []*ReadOp {
 		Has pk.Boolean
 		I   pk.Int
 		S   pk.String
+		V   pk.VarInt
 	}
-	add(&ReadOp{Name: "Tuple<Boolean,Opt<Int>,Opt<func:String>>.ReadFrom",
-		Inputs: []Input{in("absent", hx("00")), in("present", hx("01 01020304 02 6869"))},
+	add(&ReadOp{Name: "Tuple<Boolean,Opt<Int>,Opt<func:String>,Opt<func:VarInt>>.ReadFrom",
+		Inputs: []Input{in("absent", hx("00")), in("present", hx("01 01020304 02 6869 ac02"))},
 		Run: func(r io.Reader) (any, int64, error) {
 			var t optFieldVal
 			n, err := pk.Tuple{&t.Has,
 				pk.Opt{Has: &t.Has, Field: &t.I},
 				pk.Opt{Has: func() bool { return bool(t.Has) }, Field: func() pk.FieldDecoder { return &t.S }},
+				pk.Opt{Has: &t.Has, Field: func() pk.Field { return &t.V }},
 			}.ReadFrom(r)
 			return t, n, err
 		}})
